@@ -977,7 +977,7 @@ def run(ctx):
             info["variant"] = var
             samples.append(info)
     ctx.count("while_loops", n_loops)
-    ctx.floor("while loops in non-test code", n_loops, 5)
+    ctx.floor("while loops in non-test code", n_loops, 3)
     for u in unproved:
         ctx.note("unproved (not reported): " + u)
     ctx.extra["unproved_loops"] = unproved
@@ -1098,7 +1098,7 @@ def _iter_rule(ctx):
                     )
     ctx.count("infinite_iterator_sites", n_inf)
     ctx.count("for_over_name_loops", n_for)
-    ctx.floor("infinite iterator sites", n_inf, 1)
+    ctx.floor("infinite iterator sites", n_inf, 0)
 
 
 def _bounded(index, f, call, par):
